@@ -285,26 +285,38 @@ func runC16Wire(c c16WireCase) evid.Outcome {
 		}
 	}
 	if out == nil {
-		for _, conn := range hub.GetConnections() {
-			for r := 0; r < c.Rooms; r++ {
-				room, ok := hub.roomManager.GetRoom(c16Room(r))
-				has := ok && room.Has(conn)
-				if has != conn.IsInRoom(c16Room(r)) {
-					out = &evid.Failure{Key: "c16.view-differs-from-membership", Msg: fmt.Sprintf("connection %s IsInRoom(%s)=%v, the room says %v", conn.ID, c16Room(r), conn.IsInRoom(c16Room(r)), has)}
-				}
-			}
-		}
-		for r := 0; r < c.Rooms; r++ {
-			if room, ok := hub.roomManager.GetRoom(c16Room(r)); ok {
-				if c.MaxRoom > 0 && room.Size() > c.MaxRoom {
-					out = &evid.Failure{Key: "c16.room-over-capacity", Msg: fmt.Sprintf("%s has %d members, limit %d", room.Name, room.Size(), c.MaxRoom)}
-				}
-				for _, m := range room.Connections() {
-					if _, live := hub.GetConnection(m.ID); !live {
-						out = &evid.Failure{Key: "c16.disconnected-connection-in-room", Msg: fmt.Sprintf("%s still lists connection %s, which is not registered", room.Name, m.ID)}
+		// The hub takes a connection out of its table first and out of its rooms right after (same
+		// loop iteration, no lock held across both): an observer on another goroutine can see the
+		// state in between. The invariants are about the settled state, so they are re-read until
+		// they hold or the (stretched) budget for a non-blocking operation is used up.
+		roomState := func() *evid.Failure {
+			var f *evid.Failure
+			for _, conn := range hub.GetConnections() {
+				for r := 0; r < c.Rooms; r++ {
+					room, ok := hub.roomManager.GetRoom(c16Room(r))
+					has := ok && room.Has(conn)
+					if has != conn.IsInRoom(c16Room(r)) {
+						f = &evid.Failure{Key: "c16.view-differs-from-membership", Msg: fmt.Sprintf("connection %s IsInRoom(%s)=%v, the room says %v", conn.ID, c16Room(r), conn.IsInRoom(c16Room(r)), has)}
 					}
 				}
 			}
+			for r := 0; r < c.Rooms; r++ {
+				if room, ok := hub.roomManager.GetRoom(c16Room(r)); ok {
+					if c.MaxRoom > 0 && room.Size() > c.MaxRoom {
+						f = &evid.Failure{Key: "c16.room-over-capacity", Msg: fmt.Sprintf("%s has %d members, limit %d", room.Name, room.Size(), c.MaxRoom)}
+					}
+					for _, m := range room.Connections() {
+						if _, live := hub.GetConnection(m.ID); !live {
+							f = &evid.Failure{Key: "c16.disconnected-connection-in-room", Msg: fmt.Sprintf("%s still lists connection %s, which is not registered", room.Name, m.ID)}
+						}
+					}
+				}
+			}
+			return f
+		}
+		deadline := time.Now().Add(c16W())
+		for out = roomState(); out != nil && out.Key != "c16.room-over-capacity" && time.Now().Before(deadline); out = roomState() {
+			time.Sleep(time.Millisecond)
 		}
 	}
 	// Shutdown with whatever is still connected must return
